@@ -28,6 +28,9 @@ func vC18SameSite(k int) (string, http.SameSite) {
 // verif: unwind=5 strlen=10
 func vh_C18_make() {
 	nd := ndChoice("ndomains", 4)
+	if verifThorough() {
+		nd = ndChoice("ndomains-thorough", 5)
+	}
 	domains := make([]string, nd)
 	for i := range domains {
 		domains[i] = ndString("domain")
